@@ -1058,6 +1058,16 @@ fn main_check(ctx: &Ctx) -> Outcome {
     }
     out.push_part(json!({"system": "anstyle-syntect", "cases": cases.len(), "rule": "216 x 216 RGB lattice fg/bg pairs x alpha {0,255} x all 8 font-style subsets; to_anstyle, to_anstyle_color, to_anstyle_effects"}));
 
+    // every finding must reproduce, twice, from its replay payload alone (else it is a machinery error, not a verdict)
+    for f in &out.findings {
+        for _ in 0..2 {
+            if replay(&f.replay).is_ok() {
+                eprintln!("MACHINERY ERROR: finding {} does not reproduce from its replay payload", f.key());
+                std::process::exit(2);
+            }
+        }
+    }
+
     out.set("evaluations", json!(evaluations));
     out.set("distinct_nontrivial", json!(distinct_nonplain * TARGETS.len() as u64));
     out.set("distinct_styles_per_adapter", json!(distinct_styles));
